@@ -16,35 +16,14 @@ theorem R.setBq {s a} (h : R s a) (o d : Nat) :
   destruct_R h
   constructor <;> simp_all <;> assumption
 
-theorem newLit_refines {s a} (h : R s a) (r : Nat) (hok : (a.newLit r).ok = true) :
+theorem newLit_refines {s a} (h : R s a) (r : Nat) :
     ∃ s', s.newLit r = .ok s' ∧ R s' (a.newLit r) := by
-  unfold LSt.newLit at hok ⊢
-  unfold St.newLit
-  by_cases h1 : r < 0x80
-  · simp only [h1, if_true]
-    exact ⟨_, rfl, h.setLit _⟩
-  · simp only [h1, if_false] at hok ⊢
-    by_cases h2 : (r == runeEOF || r == escNewl) = true
-    · simp only [h2, if_true]
-      exact ⟨_, rfl, h.setLit _⟩
-    · simp only [h2, if_false] at hok ⊢
-      cases hb : a.behind with
-      | none => rw [hb] at hok; simp at hok
-      | some l =>
-        rw [hb] at hok
-        simp only at hok ⊢
-        simp at hok
-        obtain ⟨hb1, hb2⟩ := h.behind l hb
-        have htake : s.back.take l.length = l := (List.prefix_iff_eq_take.mp hb2).symm
-        have hlen : l.length ≤ s.back.length := hb2.length_le
-        have hw : ¬ runeLen r < 0 := by rw [hok.2]; omega
-        have hw2 : ¬ (s.bsp ≠ s.back.length ∨ (runeLen r).toNat > s.back.length) := by
-          rw [hok.2]; simp; exact ⟨hb1, hlen⟩
-        simp only [hw, hw2, if_false]
-        refine ⟨_, rfl, ?_⟩
-        have := (h.setLit (some l)).setOk (a.ok && decide (runeLen r = (l.length : Int)))
-        rw [hok.2]
-        simpa [htake, hb, hok.1, hok.2] using this
+  unfold LSt.newLit St.newLit
+  split
+  · exact ⟨_, rfl, h.setLit _⟩
+  · split
+    · exact ⟨_, rfl, h.setLit _⟩
+    · exact ⟨_, rfl, h.setLit _⟩
 
 theorem endLit_refines {s a} (h : R s a) (hok : a.endLit.2.ok = true) :
     ∃ s', s.endLit = .ok (a.endLit.1, s') ∧ R s' a.endLit.2 := by
@@ -82,15 +61,14 @@ theorem rune_ok_le (a : LSt) (h : a.rune.2.ok = true) : a.ok = true := by
   rw [← runePre_ok]
   exact loop_ok_le _ _ _ h
 
+theorem newLit_ok (a : LSt) (r : Nat) : (a.newLit r).ok = a.ok := by
+  unfold LSt.newLit
+  split
+  · rfl
+  · split <;> rfl
+
 theorem newLit_ok_le (a : LSt) (r : Nat) (h : (a.newLit r).ok = true) : a.ok = true := by
-  unfold LSt.newLit at h
-  split at h
-  · exact h
-  · split at h
-    · exact h
-    · split at h
-      · simp at h; exact h.1
-      · simp at h
+  rw [newLit_ok] at h; exact h
 
 theorem endLit_ok_le (a : LSt) (h : a.endLit.2.ok = true) : a.ok = true := by
   unfold LSt.endLit at h
@@ -177,7 +155,7 @@ theorem client_refines {α : Type} (p : Prog α) : ∀ {s : St} {a : LSt}, R s a
     intro s a h hok
     unfold specRun at hok ⊢
     unfold Prog.run
-    obtain ⟨s1, h1, hR1⟩ := newLit_refines h r (specRun_ok_le _ _ hok)
+    obtain ⟨s1, h1, hR1⟩ := newLit_refines h r
     simp only [h1, bind_ok]
     exact ih hR1 hok
   | endLit k ih =>
